@@ -109,8 +109,9 @@ func writeUnionClasses(w *formatting.IndentedWriter, td dsl.TypeDefinition, unio
 			if node.Cases.IsUnion() {
 				unionClassName, typeParameters := common.UnionClassName(node)
 				if _, ok := unions[unionClassName]; !ok {
-					if _, isNamedType := td.(*dsl.NamedType); isNamedType {
+					if nt, isNamedType := td.(*dsl.NamedType); isNamedType && nt.Type == dsl.Type(node) {
 						// This is a named type defining a union, so we will use the named type's name instead
+						// (a union further down, e.g. one given as a type argument, keeps its own name)
 						unionClassName = td.GetDefinitionMeta().Name
 					}
 					if len(unions) == 0 {
@@ -1014,6 +1015,7 @@ func writeGetDTypeFunc(w *formatting.IndentedWriter, ns *dsl.Namespace) {
 					if node.Cases.IsUnion() {
 						unionClassName, _ := common.UnionClassName(node)
 						nt, isNamedType := td.(*dsl.NamedType)
+						isNamedType = isNamedType && nt.Type == dsl.Type(node)
 						if isNamedType {
 							// This is a named type defining a union, so we will use the named type's name instead
 							unionClassName = td.GetDefinitionMeta().Name
